@@ -531,3 +531,22 @@ def check_semantics_locks(sc, obs, default_ttl=None):
     except Discard:
         return "discard"
     return None
+
+
+def mirror_lengths(stats_ob, replicas, members):
+    """C04 on fragment level, from a `stats` observation: with R copies on a stable cluster every partition's backup
+    fragments hold as many keys as its primary fragment (eviction and Delete remove a key from every copy)."""
+    if min(replicas, members) < 2:
+        return None
+    prim, back = {}, {}
+    for s in stats_ob.get("stats") or []:
+        for part, ln, inuse in s.get("parts") or []:
+            if s["kind"] == "p":
+                prim[part] = prim.get(part, 0) + ln
+            else:
+                back.setdefault(part, []).append((s["m"], ln))
+    for part, bs in sorted(back.items()):
+        for m, ln in bs:
+            if ln != prim.get(part, 0):
+                return "partition %d: the backup fragment on member %d holds %d keys, the primary fragment %d" % (part, m, ln, prim.get(part, 0))
+    return None
